@@ -688,6 +688,44 @@ func (m *Model) evalPlugin(s *Step) {
 			// waiting, which produces closed.result (DESIGN 13.2)
 			m.produce(id, "closed", "result", map[string]any{"cancelled": false, "close_requested": true})
 		}
+		if waiting && rest == Dead {
+			// A step that is stuck waiting for an input that can never arrive does not finish during
+			// the run: the stages it could still reach through completion edges (closed, crashed,
+			// deploy_failed) are neither produced nor ruled out - they stay pending until the run
+			// closes the step. A wait-optional field on them is therefore never evaluated.
+			for _, st := range []string{"closed", "crashed", "deploy_failed"} {
+				if _, set := m.Nodes["steps."+id+"."+st]; !set {
+					m.set(id, st, Pending)
+				}
+			}
+			// Stuck before deployment: the enabling stage simply never happens; unless its own
+			// dependencies are ruled out, it (and the disabled stage behind it) stays pending too.
+			if _, deployed := m.Nodes["steps."+id+".deploy"]; !deployed && m.valStatus(s.Enabled) != Dead {
+				m.set(id, "enabling", Pending)
+				m.set(id, "disabled", Pending)
+			}
+		}
+		if rest == Pending {
+			// Unresolvability travels through the dependency graph independently of what the step
+			// has physically done: a later stage with a dependency that can never be produced is
+			// ruled out even while an earlier stage is still pending.
+			enablingDeps := m.valStatus(s.Enabled)
+			startingDeps := worst(worst(m.valStatus(s.Input), m.valStatus(s.WaitFor)), m.valStatus(s.ClosureTimeoutMs))
+			if enablingDeps == Dead {
+				for _, st := range []string{"enabling", "disabled"} {
+					if _, set := m.Nodes["steps."+id+"."+st]; !set {
+						m.set(id, st, Dead)
+					}
+				}
+			}
+			if enablingDeps == Dead || startingDeps == Dead || m.valStatus(s.DeployTag) == Dead {
+				for _, st := range []string{"starting", "running", "outputs"} {
+					if _, set := m.Nodes["steps."+id+"."+st]; !set {
+						m.set(id, st, Dead)
+					}
+				}
+			}
+		}
 		m.finalize(id, pluginStages, pluginOutputs, rest)
 	}
 	// the cancelled stage never completes as a stage
@@ -830,6 +868,11 @@ func (m *Model) evalForeach(s *Step) {
 	m.set(id, "disabled", Dead)
 	st := worst(worst(m.valStatus(s.Items), m.valStatus(s.WaitFor)), m.valStatus(s.Parallelism))
 	if st != Produced {
+		if st == Dead {
+			// stuck waiting for its execute input: failed / closed stay pending (see evalPlugin)
+			m.set(id, "failed", Pending)
+			m.set(id, "closed", Pending)
+		}
 		done(st)
 		return
 	}
